@@ -84,8 +84,18 @@ def check_type(value: Any, attr_type: Type) -> bool:
                         if not check_type(item, attr_type.__args__[i]):
                             return False
             elif attr_type.__origin__ == type:
-                if not issubclass(value, attr_type.__args__[0]):
-                    return False
+                type_arg = attr_type.__args__[0]
+                if type_arg is Any or isinstance(type_arg, TypeVar):
+                    return True  # `Type[Any]`: every class.
+                while True:
+                    try:
+                        return issubclass(value, type_arg)
+                    except TypeError:
+                        # Parameterised generics cannot be used in subclass
+                        # checks; fall back to the class they parameterise.
+                        if not hasattr(type_arg, "__origin__"):
+                            return False
+                        type_arg = type_arg.__origin__
 
             return True
 
